@@ -1,5 +1,5 @@
 (** C12 — kill and pending-timeout deadlines stop tasks, never early, and end the Job. *)
-From Furiko Require Import Job.Core Job.Sync Proofs.JobP Proofs.SyncP Proofs.SweepP.
+From Furiko Require Import Job.Core Job.Sync Job.World Proofs.JobP Proofs.SyncP Proofs.SweepP Proofs.HistoryP.
 
 (** The kill sweep deletes only when the kill timestamp has passed (<= now) or the
     completion strategy is decided, and only tasks that are neither finished nor already
@@ -140,3 +140,27 @@ Example c12_nonvacuous :
   (ps_actions s, map tr_deleted (j_tasks j), ok)
   = ([ADelete "j-gezdqo-0" false 0], [Some (mkSt TTerminated RKilled RePendingTimeout)], true).
 Proof. vm_compute. reflexivity. Qed.
+
+
+(** REFUTED on the faithful model (finding F10): "a killed Job ends with none of its tasks
+    alive" is false over histories.  The user sets the kill timestamp; the pass still runs on
+    the cached Job without it, creates the task, and its status write conflicts with the
+    user's edit - the new task is recorded nowhere.  The next pass sees the kill timestamp,
+    may not create, rebuilds the task list from the recorded tasks only (none), and reports
+    the Job Killed: finished, with its Pod alive, unrecorded and never deleted.  (The per-pass
+    sweep theorems above speak of the tasks the pass has in its list; this Pod never enters
+    it.)  Reported by the monitor as the known finding C12/unrecorded-task-alive-after-kill. *)
+Theorem c12_killed_job_leaves_no_task_alive_refuted :
+  exists cfg j0 now ops,
+    let w := HistoryP.jrun_world cfg (init_jworld j0 now) ops in
+    option_map (fun a => (j_phase a, map tr_name (j_tasks a))) (api_job w) = Some (PhKilled, []) /\
+    map (fun p => (p_name p, p_deletion p, p_controlled p)) (api_pods w) = [("j-aaaaaa-0"%string, None, true)].
+Proof.
+  exists (mkCfg (Some 900) (Some 900) (Some 3600)),
+    (mkJob ["aaaaaa"%string] false AllSuccessful 2 0 false false None false None None false true None (Some 10)
+           [] 0 0 None (CWaiting WPendingCreation) PhStarting SWaiting), 100,
+    [JKill 100; JSync; JAdvanceJob 9; JAdvancePods 9; JClock 105; JSync; JAdvanceJob 9; JAdvancePods 9; JSync;
+     JAdvanceJob 9; JAdvancePods 9; JSync].
+  vm_compute. split; reflexivity.
+Qed.
+Print Assumptions c12_killed_job_leaves_no_task_alive_refuted.
